@@ -161,29 +161,38 @@ Proof. exact percent_decode_quote. Qed.
 Print Assumptions C36_percent.
 
 (* ---- git URL + branch/ref -> breezy URL -> back ----
-   L = the location after git_url_to_bzr_url's scheme normalisation (url_head);
-   guard [plain]: no comma in L's last path segment.
+   L = the location after git_url_to_bzr_url's scheme normalisation (url_head); the URL that
+   comes back is L with every comma quoted as %2C (repair 3b37c3b; before it the round trip
+   needed "no comma in the last path segment").  No guard on L any more.
    The (branch, ref) that comes back is the pair git_url_to_bzr_url itself normalised
-   ([norm_br]: HEAD and empty values mean "none", a refs/heads/X ref is the branch X). *)
+   ([norm_br]: HEAD and empty values mean "none", a refs/heads/X ref whose name X maps back
+   to it is the branch X -- repair c5a74d8), and it denotes the same ref (C36_url_ref_preserved). *)
 Theorem C36_url_roundtrip : forall ssh_reser location L branch ref,
   url_head ssh_reser location = HCont L ->
-  valid_str L -> plain L = true -> valid_opt branch -> wf_opt ref ->
+  valid_str L -> valid_opt branch -> wf_opt ref ->
   (branch = None \/ ref = None) ->
   exists u, git_url_to_bzr_url ssh_reser location branch ref = Ok u /\
             bzr_url_to_git_url u
-            = Ok (L, ne_opt (snd (norm_br branch ref)), ne_opt (fst (norm_br branch ref))).
+            = Ok (quote_commas L, ne_opt (snd (norm_br branch ref)), ne_opt (fst (norm_br branch ref))).
 Proof. exact url_roundtrip. Qed.
 Print Assumptions C36_url_roundtrip.
 
+(* every non-empty ref other than HEAD comes back as a (branch, ref) pair denoting that ref *)
+Theorem C36_url_ref_preserved : forall r,
+  r <> [] -> bytes_eqb r HEAD = false ->
+  eff_ref (ne_opt (snd (norm_br None (Some r)))) (ne_opt (fst (norm_br None (Some r)))) = Some r.
+Proof. exact norm_br_eff. Qed.
+Print Assumptions C36_url_ref_preserved.
+
 (* the three readable instances: a branch name, a ref that is not a branch, a branch ref *)
 Theorem C36_url_roundtrip_branch : forall ssh_reser location L b,
-  url_head ssh_reser location = HCont L -> valid_str L -> plain L = true ->
+  url_head ssh_reser location = HCont L -> valid_str L ->
   valid_str b -> b <> [] ->
   exists u, git_url_to_bzr_url ssh_reser location (Some b) None = Ok u /\
-            bzr_url_to_git_url u = Ok (L, Some b, None).
+            bzr_url_to_git_url u = Ok (quote_commas L, Some b, None).
 Proof.
-  intros ssh_reser location L b HH HV HL Hb Hne.
-  destruct (url_roundtrip ssh_reser location L (Some b) None HH HV HL Hb I (or_intror eq_refl))
+  intros ssh_reser location L b HH HV Hb Hne.
+  destruct (url_roundtrip ssh_reser location L (Some b) None HH HV Hb I (or_intror eq_refl))
     as [u [H1 H2]].
   exists u. split; [exact H1|]. rewrite H2, norm_br_branch.
   destruct b; [contradiction|reflexivity].
@@ -191,13 +200,13 @@ Qed.
 Print Assumptions C36_url_roundtrip_branch.
 
 Theorem C36_url_roundtrip_ref : forall ssh_reser location L r e,
-  url_head ssh_reser location = HCont L -> valid_str L -> plain L = true ->
+  url_head ssh_reser location = HCont L -> valid_str L ->
   wf_bytes r = true -> r <> [] -> bytes_eqb r HEAD = false -> ref_to_branch_name r = Err e ->
   exists u, git_url_to_bzr_url ssh_reser location None (Some r) = Ok u /\
-            bzr_url_to_git_url u = Ok (L, None, Some r).
+            bzr_url_to_git_url u = Ok (quote_commas L, None, Some r).
 Proof.
-  intros ssh_reser location L r e HH HV HL Hr Hne H1 H2.
-  destruct (url_roundtrip ssh_reser location L None (Some r) HH HV HL I Hr (or_introl eq_refl))
+  intros ssh_reser location L r e HH HV Hr Hne H1 H2.
+  destruct (url_roundtrip ssh_reser location L None (Some r) HH HV I Hr (or_introl eq_refl))
     as [u [H3 H4]].
   exists u. split; [exact H3|]. rewrite H4, (norm_br_ref_other r e H1 H2).
   destruct r; [contradiction|reflexivity].
@@ -205,17 +214,17 @@ Qed.
 Print Assumptions C36_url_roundtrip_ref.
 
 Theorem C36_url_roundtrip_branch_ref : forall ssh_reser location L name e,
-  url_head ssh_reser location = HCont L -> valid_str L -> plain L = true ->
-  name <> [] -> utf8_encode false name = Some e ->
+  url_head ssh_reser location = HCont L -> valid_str L ->
+  name <> [] -> prefixb REFS_SLASH name = false -> utf8_encode false name = Some e ->
   exists u, git_url_to_bzr_url ssh_reser location None (Some (LOCAL_BRANCH_PREFIX ++ e)) = Ok u /\
-            bzr_url_to_git_url u = Ok (L, Some name, None).
+            bzr_url_to_git_url u = Ok (quote_commas L, Some name, None).
 Proof.
-  intros ssh_reser location L name e HH HV HL Hne He.
+  intros ssh_reser location L name e HH HV Hne Hg He.
   assert (Hwf : wf_opt (Some (LOCAL_BRANCH_PREFIX ++ e))).
   { cbn [wf_opt]. rewrite wf_bytes_app, (utf8_encode_wf _ _ _ He). reflexivity. }
-  destruct (url_roundtrip ssh_reser location L None _ HH HV HL I Hwf (or_introl eq_refl))
+  destruct (url_roundtrip ssh_reser location L None _ HH HV I Hwf (or_introl eq_refl))
     as [u [H3 H4]].
-  exists u. split; [exact H3|]. rewrite H4, (norm_br_ref_heads name e Hne He).
+  exists u. split; [exact H3|]. rewrite H4, (norm_br_ref_heads name e Hne Hg He).
   destruct name; [contradiction|reflexivity].
 Qed.
 Print Assumptions C36_url_roundtrip_branch_ref.
@@ -228,22 +237,6 @@ Theorem C36_url_head_known : forall ssh_reser location,
 Proof. exact url_head_known. Qed.
 Print Assumptions C36_url_head_known.
 
-(* outside the guard: a comma in the last path segment *)
-Theorem C36_url_roundtrip_comma_refuted :
-  exists location branch u,
-    git_url_to_bzr_url (fun l => l) location (Some branch) None = Ok u /\
-    url_head (fun l => l) location = HCont location /\
-    bzr_url_to_git_url u <> Ok (location, Some branch, None).
-Proof. exact url_roundtrip_comma_refuted. Qed.
-Print Assumptions C36_url_roundtrip_comma_refuted.
-
-Theorem C36_url_roundtrip_comma_refuted_error :
-  exists location,
-    git_url_to_bzr_url (fun l => l) location None None = Ok location /\
-    bzr_url_to_git_url location = Err "ValueError".
-Proof. exact url_roundtrip_comma_refuted_error. Qed.
-Print Assumptions C36_url_roundtrip_comma_refuted_error.
-
 Example C36_url_ex :
   git_url_to_bzr_url (fun l => l) (asc "git://h/r") (Some (asc "a b")) None
     = Ok (asc "git://h/r,branch=a%20b") /\
@@ -252,22 +245,34 @@ Example C36_url_ex :
     = Ok (asc "git+ssh://u@h/r,ref=refs%2Ftags%2Fv1") /\
   bzr_url_to_git_url (asc "git+ssh://u@h/r,ref=refs%2Ftags%2Fv1")
     = Ok (asc "git+ssh://u@h/r", None, Some (asc "refs/tags/v1")) /\
-  plain (asc "git://h/r") = true /\ plain (asc "git://h/r,a=b") = false.
+  quote_commas (asc "git://h/r,a=b") = asc "git://h/r%2Ca=b" /\
+  git_url_to_bzr_url (fun l => l) (asc "git://h/r") None (Some (asc "refs/heads/refs/y"))
+    = Ok (asc "git://h/r,ref=refs%2Fheads%2Frefs%2Fy").
 Proof. repeat split; vm_compute; reflexivity. Qed.
 
+(* the former witnesses of C36_url_roundtrip_comma_refuted now round-trip *)
+Example C36_url_comma_ex :
+  git_url_to_bzr_url (fun l => l) (asc "git://h/r,a=b") (Some (asc "x")) None
+    = Ok (asc "git://h/r%2Ca=b,branch=x") /\
+  bzr_url_to_git_url (asc "git://h/r%2Ca=b,branch=x") = Ok (asc "git://h/r%2Ca=b", Some (asc "x"), None) /\
+  git_url_to_bzr_url (fun l => l) (asc "git://h/r,a") None None = Ok (asc "git://h/r%2Ca") /\
+  bzr_url_to_git_url (asc "git://h/r%2Ca") = Ok (asc "git://h/r%2Ca", None, None).
+Proof. exact url_roundtrip_comma_example. Qed.
+
 (* ---- parent location ---- *)
-(* any named branch, rel L = L (URL unrelated to the branch's own), plain known-scheme L:
+(* any named branch, rel L = L (URL unrelated to the branch's own), known-scheme L:
    what _get_parent_location reads back splits into L and the normalised stored ref.
    (F-C36b, repaired in /repo: the merge ref used to be read from branch.<remote>.) *)
 Theorem C36_parent_location : forall ssh_reser rel name location cfg L branch ref v,
   name <> [] ->
   bzr_url_to_git_url location = Ok (L, branch, ref) ->
   eff_ref branch ref = Some v -> wf_bytes v = true ->
-  rel L = L -> url_head ssh_reser L = HCont L -> valid_str L -> plain L = true ->
+  rel L = L -> url_head ssh_reser L = HCont L -> valid_str L ->
   exists cfg' u, set_parent rel name location cfg = Ok cfg' /\
                  get_parent_location ssh_reser name cfg' = Ok (Some u) /\
                  bzr_url_to_git_url u
-                 = Ok (L, ne_opt (snd (norm_br None (Some v))), ne_opt (fst (norm_br None (Some v)))).
+                 = Ok (quote_commas L,
+                       ne_opt (snd (norm_br None (Some v))), ne_opt (fst (norm_br None (Some v)))).
 Proof. exact parent_location_equivalent. Qed.
 Print Assumptions C36_parent_location.
 
